@@ -112,6 +112,65 @@ func genProgram(rnd *rand.Rand) []step {
 	return p
 }
 
+// genContentLengthProgram: what http.ServeContent / http.FileServer style handlers do. The
+// handler sets Content-Length itself, consistently with what it writes (a wrong declared length
+// is a handler bug that net/http answers by aborting the connection; not generated):
+//
+//	0: HEAD, Content-Length: N (N > 0), optional WriteHeader(200|206|404), no Write
+//	1: GET or HEAD, Content-Length = exact size of the 1-3 Writes that follow
+//	2: any method, Content-Length: N with WriteHeader(304 | 204), no Write
+//
+// plus 0-3 ordinary handler-set fields around it. No Flush (the streaming path of the adaptor
+// drops Content-Length by documented design).
+func genContentLengthProgram(rnd *rand.Rand) ([]step, string) {
+	var p []step
+	extra := func() {
+		for k := rnd.Intn(3); k > 0; k-- {
+			p = append(p, step{Op: "add", K: hdrNames[rnd.Intn(len(hdrNames))], V: hdrValues[rnd.Intn(len(hdrValues))]})
+		}
+	}
+	setOp := []string{"set", "set", "add"}[rnd.Intn(3)]
+	clName := []string{"Content-Length", "Content-Length", "content-length"}[rnd.Intn(3)]
+	method := ""
+	extra()
+	switch rnd.Intn(3) {
+	case 0:
+		method = "HEAD"
+		p = append(p, step{Op: setOp, K: clName, V: strconv.Itoa([]int{1234, 1, 7, 65536, 5_000_000_000}[rnd.Intn(5)])})
+		if rnd.Intn(2) == 0 {
+			p = append(p, step{Op: "set", K: "Content-Type", V: ctValues[rnd.Intn(len(ctValues))]})
+		}
+		extra()
+		if rnd.Intn(2) == 0 {
+			p = append(p, step{Op: "wh", Code: []int{200, 206, 404}[rnd.Intn(3)]})
+		}
+	case 1:
+		if rnd.Intn(2) == 0 {
+			method = "HEAD"
+		} else {
+			method = "GET"
+		}
+		var ws []step
+		total := 0
+		for k := 1 + rnd.Intn(3); k > 0; k-- {
+			d := 1 + rnd.Intn(len(bodies)-1)
+			total += len(bodies[d])
+			ws = append(ws, step{Op: "write", Data: d})
+		}
+		p = append(p, step{Op: setOp, K: clName, V: strconv.Itoa(total)})
+		extra()
+		if rnd.Intn(3) == 0 {
+			p = append(p, step{Op: "wh", Code: []int{200, 201, 404, 500}[rnd.Intn(4)]})
+		}
+		p = append(p, ws...)
+	default:
+		p = append(p, step{Op: setOp, K: clName, V: strconv.Itoa([]int{1234, 5, 0}[rnd.Intn(3)])})
+		extra()
+		p = append(p, step{Op: "wh", Code: []int{304, 304, 204}[rnd.Intn(3)]})
+	}
+	return p, method
+}
+
 func runProgram(p []step, w http.ResponseWriter) {
 	for _, s := range p {
 		switch s.Op {
@@ -143,6 +202,7 @@ type features struct {
 	HdrAfterCommit  bool            // Header() mutation after the commit point
 	MutatedAfter    map[string]bool // canonical names mutated after the commit point
 	TouchedCTBefore bool            // Content-Type set before the commit point
+	SetCLBefore     bool            // Content-Length set by the handler before the commit point
 	Commit          string          // none | writeheader | write | flush
 	Flushes         bool
 	InfoAny         bool
@@ -183,6 +243,8 @@ func analyse(p []step) features {
 				f.MutatedAfter[k] = true
 			} else if k == "Content-Type" {
 				f.TouchedCTBefore = true
+			} else if k == "Content-Length" {
+				f.SetCLBefore = s.Op != "del"
 			}
 		}
 	}
@@ -311,12 +373,12 @@ func progString(p []step) string {
 func TestC36(t *testing.T) {
 	r := mon.Start(t, "C36")
 	defer r.Finish()
-	r.Rule("(a) program = 1-8 steps over WriteHeader(1xx | 2xx-5xx incl. 204/304), Header().Add/Set/Del (repeated, mixed-case, empty values, Content-Type) before and after the commit point, Write (empty, short, >512 B, >2 KiB, HTML/JSON/PNG-sniffable), Flush; run for GET (HEAD 1 in 8) behind fasthttpadaptor+fasthttp.Server and behind net/http.Server; final status / handler-set fields / body compared. " +
-		"(b) request = method x target (origin, query, escapes, absolute-URI, *) x HTTP/1.0|1.1 x Host forms x 0-6 headers (mixed-case names, repeated, padded/empty values, cookies) x body (none, Content-Length, chunked); ConvertRequest vs http.ReadRequest. " +
+	r.Rule("(a) program = 1-8 steps over WriteHeader(1xx | 2xx-5xx incl. 204/304), Header().Add/Set/Del (repeated, mixed-case, empty values, Content-Type) before and after the commit point, Write (empty, short, >512 B, >2 KiB, HTML/JSON/PNG-sniffable), Flush; every fifth program is of the ServeContent kind (handler-set Content-Length: HEAD without body, GET/HEAD with exactly that many bytes written, 204/304); run for GET (HEAD 1 in 8) behind fasthttpadaptor+fasthttp.Server and behind net/http.Server; final status / handler-set fields / body compared. " +
+		"(b) request = method x target (origin, query, escapes, absolute-URI, *) x HTTP/1.0|1.1 x Host forms x 0-6 headers (mixed-case names, the same field repeated in different casings, padded/empty values, cookies, lower/upper-case spelling of Host/Content-Type/Content-Length/Transfer-Encoding/Cookie/User-Agent lines) x body (none, Content-Length, chunked) x header name normalising on/off (Request.Header.DisableNormalizing, 1 in 8 through a real Server with DisableHeaderNamesNormalizing whose handler calls ConvertRequest); ConvertRequest vs http.ReadRequest, header values compared per canonical name in wire order. " +
 		"distinct = sequence of step kinds (+method) / request feature vector; non-trivial = program has >= 2 steps with a commit, or request has a body, a repeated header or a non-trivial target")
 	r.Assume("net/http (server, ReadRequest, ReadResponse) of the Go toolchain in use is the reference")
 	r.Assume("compared response fields are the handler-set, non-framing names " + strings.Join(cmpNames, ", ") + "; Content-Type is compared only when the handler set it before the commit point (sniffing differs by design) and the status is not 304 (net/http drops it there), and must not leak a value set after the commit point; Content-Length, Transfer-Encoding, Connection, Date, Server are never compared")
-	r.Assume("handlers do not set framing fields, CR/LF in values, an empty Content-Type, or trailers; they do not hijack or panic")
+	r.Assume("handlers set Content-Length only consistently with what they write (HEAD without body, GET with exactly that many bytes, 204/304) and never together with Flush; Content-Length is compared when the handler set it, except on 204/304 where net/http strips it by itself; handlers do not set other framing fields, CR/LF in values, an empty Content-Type, or trailers; they do not hijack or panic")
 	r.Assume("ConvertRequest: requests that either parser rejects are skipped and counted; Host (promoted to Request.Host by net/http) and Transfer-Encoding are excluded from the header multiset; Content-Length and Connection (framing / hop-by-hop; fasthttp synthesises `Content-Length: 0` and, for HTTP/1.0, `Connection: close`) are counted but not judged; repeated fasthttp single-valued request headers (Host, Content-Type, User-Agent, Content-Length, Cookie) and malformed cookies are not generated")
 
 	t0 := time.Now()
@@ -355,6 +417,13 @@ func runPrograms(r *mon.Run) {
 		if rnd.Intn(8) == 0 {
 			method = "HEAD"
 		}
+		if i%5 == 4 {
+			// every fifth program is of the ServeContent kind (handler-set Content-Length)
+			var m string
+			if p, m = genContentLengthProgram(rnd); m != "" {
+				method = m
+			}
+		}
 		id := strconv.Itoa(i)
 		tbl.put(id, p)
 		defer tbl.del(id)
@@ -383,6 +452,7 @@ func runPrograms(r *mon.Run) {
 	})
 	if !r.Replaying() {
 		r.Require("programs_compared", n*99/100)
+		r.Require("handler_content_length_equal_on_head", n/100)
 	}
 }
 
@@ -473,6 +543,33 @@ func comparePrograms(r *mon.Run, i int, p []step, method string, f features, got
 		r.Event("skipped_sniffed_content_type", 1)
 	}
 
+	// Content-Length: a framing field, compared only when the handler itself set it (before the commit
+	// point, and without Flush: the adaptor's streaming path drops it by documented design)
+	if f.SetCLBefore {
+		gcl, wcl := multiset(got.Header, "Content-Length"), multiset(want.Header, "Content-Length")
+		switch {
+		case f.Flushes || f.MutatedAfter["Content-Length"]:
+			r.Event("skipped_handler_content_length_with_flush", 1)
+		case want.Status == 204 || want.Status == 304:
+			// net/http removes Content-Length from 204 and 304 responses by itself (server policy, like
+			// Content-Type on 304); the adaptor passes the handler's value on. Counted, not judged.
+			if !eqStrings(gcl, wcl) {
+				r.Event("handler_content_length_on_204_304_differs_not_judged", 1)
+			}
+		case eqStrings(gcl, wcl):
+			r.Event("handler_content_length_equal", 1)
+			if method == "HEAD" && len(wcl) == 1 && wcl[0] != "0" && want.Body == "" {
+				r.Event("handler_content_length_equal_on_head", 1)
+			}
+		default:
+			key := "unclassified-header-content-length"
+			if len(wcl) == 1 && (len(gcl) == 0 || gcl[0] == "0") {
+				key = "handler-content-length-lost"
+			}
+			r.Violation(i, key, desc(fmt.Sprintf("handler-set Content-Length differs on the wire: adaptor %q, net/http %q", gcl, wcl)), payload)
+		}
+	}
+
 	// ---- body
 	if got.Body != want.Body {
 		key := "unclassified-body"
@@ -507,7 +604,7 @@ func contains(ss []string, s string) bool {
 
 func pick(h map[string][]string) map[string][]string {
 	out := map[string][]string{}
-	for _, k := range append([]string{"Content-Type"}, cmpNames...) {
+	for _, k := range append([]string{"Content-Type", "Content-Length"}, cmpNames...) {
 		if v, ok := h[k]; ok {
 			out[k] = v
 		}
